@@ -84,4 +84,6 @@ func (m *burstyModel) clone() model {
 	}
 	return c
 }
-func (m *burstyModel) String() string { return fmt.Sprintf("bursty{front=%d used=%v}", m.front, m.used) }
+func (m *burstyModel) String() string {
+	return fmt.Sprintf("bursty{front=%d used=%v}", m.front, m.used)
+}
